@@ -1,4 +1,5 @@
 import SdJwt.Lemmas.Reject
+import SdJwt.Lemmas.RestoreAll
 /-!
 # C12 — SD-JWTs the specification says must be rejected are rejected
 
@@ -150,3 +151,37 @@ theorem C12_sd_alg_verifier (rt : Rt) (tok : String) (policy : Bool) (parts : Pa
 example : hasBadSd (.obj [("a", .arr [.obj [("_sd", .str "x")]])]) = true := by decide
 example : hasBadPlaceholder (.obj [("a", .arr [.obj [("...", .str "g"), ("y", .null)]])]) = true := by decide
 example : ¬ (embedded (.obj [("_sd", .arr [.str "g"]), ("a", .arr [.obj [("...", .str "g")]])])).Nodup := by decide
+
+/-- **The embedding rules hold globally: payload AND the values of all presented disclosures.**
+If the restorer accepts, then no `_sd` is a non-array and no placeholder has extra members
+anywhere in the payload or in any decoded disclosure's value, and all digests embedded in the
+payload and in all disclosure values together are pairwise distinct (one shared set — D17). -/
+theorem C12_global (env : Env) (P : J) (L : List String) (r : J × List PathEntry)
+    (h : restoreAll env P L = .ok r) :
+    ∃ ds, decodeAll env L [] = .ok ds ∧ (embedded P ++ embeddedValues ds).Nodup ∧
+      hasBadSd P = false ∧ hasBadPlaceholder P = false ∧
+      ∀ d ∈ ds, hasBadSd d.value = false ∧ hasBadPlaceholder d.value = false :=
+  restoreAll_ok_global env P L r h
+
+/-- a defect inside the VALUE of any presented disclosure — referenced or not, wherever it
+stands in the list — makes the restoration fail: a non-array `_sd`, a placeholder with extra
+members, a digest that is also embedded in the payload -/
+theorem C12_defect_in_value (env : Env) (P : J) (L : List String) (s : String) (hs : s ∈ L) (d : Disc)
+    (hd : fromBase64 env s = .ok d)
+    (hbad : hasBadSd d.value = true ∨ hasBadPlaceholder d.value = true ∨
+      ∃ g ∈ embedded d.value, g ∈ embedded P) :
+    ∀ r, restoreAll env P L ≠ .ok r := by
+  intro r hok
+  obtain ⟨ds, hL, hnd, _, _, hclean⟩ := restoreAll_ok_global env P L r hok
+  obtain ⟨_, _, hto, _⟩ := decodeAll_ok env L [] ds hL (by simp [Distinct])
+  obtain ⟨d', hd', hf⟩ := hto s hs
+  rw [hd] at hf
+  cases hf
+  rcases hbad with hb | hb | ⟨g, hg1, hg2⟩
+  · have := (hclean d hd').1; rw [hb] at this; cases this
+  · have := (hclean d hd').2; rw [hb] at this; cases this
+  · have hmem : g ∈ embeddedValues ds := by
+      unfold embeddedValues
+      simp only [List.mem_flatten, List.mem_map]
+      exact ⟨embedded d.value, ⟨d, hd', rfl⟩, hg1⟩
+    exact (List.nodup_append.mp hnd).2.2 g hg2 g hmem rfl
